@@ -4,8 +4,10 @@ C02 — what is written under a key or address is exactly what is read back.
 Proved here, for every key, data, chunking, algorithm, size declaration, entry point and flavour:
 * **truthful success** (`write_ok_means`): whenever a write answers ok — in the healthy run and
   under every fault plan — the answer is the digest of all bytes fed, the content path of that
-  digest exists, and (keyed) the key's bucket is the old bytes followed by the whole new record
-  carrying that integrity and the byte count;
+  digest EXISTS (`isSome`: some node is there; that it is a regular file holding the data — i.e.
+  retrievability — is the `some (.file b)` hypothesis of the read-back / end-to-end theorems and a
+  conclusion of the refinement theorems), and (keyed) the key's bucket is the old bytes followed
+  by the whole new record carrying that integrity and the byte count;
 * **read-back** (`read_back_by_address`, `read_back_by_key`): in the state a successful write
   leaves, reading by the returned address and by the key yields exactly the data.
 Hypotheses of the read-back: the digest not colliding on {data, what sits at the address} and the
@@ -28,7 +30,8 @@ open Prog
 
 variable (cfg : Cfg) (env : Env) (cache : Path)
 
-/-- **Truthful success**, healthy run and every fault plan. -/
+/-- **Truthful success**, healthy run and every fault plan.  (`StreamPost` says the content path
+exists — `isSome` —, not yet that it is a regular file with the data: see the header.) -/
 theorem write_ok_means (fl : Flavour) (key : Bytes) (o : WriteOpts) (chunks : List Bytes)
     (b0 : Bytes) (fs : FS) (hv : ContentValid cfg cache fs)
     (hb : BucketIs fs (bucketPath cfg cache key) b0) (plan : Nat → Option Fault) :
